@@ -8,7 +8,9 @@ export GOFLAGS=-mod=mod GOPROXY=off GOSUMDB=off GOTOOLCHAIN=local
 S="$src/SEED"
 [ -f "$S/patch.diff" ] || { echo "no patch.diff in $S"; exit 2; }
 demo_rel=$(head -1 "$S/demo_path.txt" | sed 's/^[^a-zA-Z\/]*//; s/[` ]*$//' | grep -o '[a-zA-Z0-9_./-]*\.go' | head -1)
-demo_file=$(ls "$S"/*_test.go "$S"/*.go 2>/dev/null | head -1)
+demo_file=$(ls "$S"/*_test.go "$S"/*_test.go.txt "$S"/*.go "$S"/*.go.txt 2>/dev/null | head -1)
+[ -n "$demo_file" ] || { echo "NO DEMO FILE in $S"; exit 2; }
+[ -n "$demo_rel" ] || { echo "NO DEMO PATH in $S/demo_path.txt"; exit 2; }
 W=/tmp/confirm-$name
 git -C /repo worktree remove --force $W 2>/dev/null
 git -C /repo worktree add -q --detach $W HEAD || exit 2
@@ -37,6 +39,6 @@ cd $W && git apply "$S/patch.diff" || exit 2
 rm -f "$W/$demo_rel"
 trap 'cleanup; find /verif/replays -type f ! -name .gitkeep -delete' EXIT
 for p in "$@"; do
-  out=$(cd /verif && VERIF_REPO=$W python3 bin/check run "$p" 2>&1); rc=$?
+  out=$(cd /verif && VERIF_REPO=$W VERIF_EVIDENCE_DIR=/verif/.work/evidence-scratch python3 bin/check run "$p" 2>&1); rc=$?
   echo "== seeded/$name $p exit=$rc"; echo "$out" | grep -aE "ORACLE|VIOLATION|INCONCLUSIVE|quick:" | grep -av "rapid\] failed" | head -3 | cut -c1-400
 done
